@@ -609,6 +609,10 @@ class LinearOperator(object):
 
         self = self.evaluate_kernel()
         other = other.evaluate_kernel()
+        # MulLinearOperator needs operands of the same size: expand both to the broadcast batch shape
+        batch_shape = torch.broadcast_shapes(self.batch_shape, other.batch_shape)
+        self = self if self.batch_shape == batch_shape else self._expand_batch(batch_shape)
+        other = other if other.batch_shape == batch_shape else other._expand_batch(batch_shape)
         if isinstance(self, DenseLinearOperator) or isinstance(other, DenseLinearOperator):
             return DenseLinearOperator(self.to_dense() * other.to_dense())
         else:
